@@ -174,15 +174,21 @@ def check(ctx):
         allk |= v
     # (no collector object at all -- the parsers return the value -- is agreement too;
     # that at most one line is ever decoded per file is R20.5)
-    same_keeper = not keepers or \
+    from .c03 import first_match_rules
+    before = len(ctx.findings)
+    first_match_rules(ctx, 'R20.5')
+    first_wins = len(ctx.findings) == before
+    # which collector keeps the value only matters when a reader may decode more than
+    # one DeletionDate line of a file (R20.5 failed): then "first kept" and "last kept"
+    # collectors disagree
+    same_keeper = first_wins or not keepers or \
         (all(v == allk for v in keepers.values()) and len(keepers) >= 2)
-    ctx.ob('R20.1', 'the parsed date is kept by the same collector in list, restore and empty',
+    ctx.ob('R20.1', 'the parsed date is kept the same way in list, restore and empty (at most '
+                    'one line is ever decoded, or the same collector code is used)',
            same_keeper, construct='DeletionDate collector', text=str(sorted(allk)),
            message='the readers keep the parsed DeletionDate through different code: %s -- '
                    'with duplicate DeletionDate lines they disagree on which one counts'
                    % {k: sorted(v) for k, v in keepers.items()})
-    from .c03 import first_match_rules
-    first_match_rules(ctx, 'R20.5')
     ctx.ob('R20.1', 'one Path parser feeds every use of an original location',
            len(loc_funcs) == 1, construct='parse_trashinfo', text='Path parsers',
            message='original locations are decoded in %d different functions: %s'
